@@ -12,7 +12,7 @@ from .. import rules
 from ..rules import (callee_is, object_of, field_name, call_args, mentions_field, mentions_call,
                      Wrapper, exempt_edges, loops_in, loop_header, loop_iteration_must_pass,
                      enclosing_loops)
-from ..facts import children, strip_all_casts, walk, CALL_KINDS
+from ..facts import children, strip_all_casts, walk, CALL_KINDS, AnalysisBroken
 from .c02 import end_check_targets, usage_atom, r5_unknown
 
 
@@ -186,6 +186,98 @@ def r3(chk, prog):
         chk.check(found, 'R3', f.name, '%s in two handlers end in an exception' % what, f.loc())
 
 
+def r4_membership_flag(chk, prog):
+    """Handlers created by Groups must know that they belong to a group (Handler::hfInGroup -> mUsedByGroup): only
+    then do they run the cross-handler key check when an argument is added.  The flag word Groups keeps for new
+    handlers contains hfInGroup from its constructor on, and no update of it may clear the bit - decided by
+    evaluating every write of the flag word for all combinations of the flag bits it mentions (Engine B)."""
+    from ..boolshape import Interp, NeedAtom, Unsupported
+    import itertools
+    en = prog.enums.get('celma::prog_args::Handler::HandleFlags')
+    chk.require(en is not None, 'Handler::HandleFlags not found')
+    vals = {e['name']: e['val'] for e in en['enumerators']}
+    chk.require('hfInGroup' in vals, 'Handler::hfInGroup not found')
+    bit = vals['hfInGroup']
+    fns = [f for f in prog.functions if (f.classq or '') == 'celma::prog_args::Groups']
+    # the constructor establishes the bit
+    ctors = [f for f in fns if f.d.get('ctor')]
+    est = 0
+    for f in ctors:
+        for ini in f.inits:
+            if ini.get('name') == 'mHandlerFlags' and isinstance(ini.get('init'), dict):
+                good = True
+                for fs_ in (0, 0xffffffff, 0x5555, bit, 0):
+                    env = {p['name']: fs_ for p in f.params}
+                    it = Interp(f, env, opaque_ok=False)
+                    try:
+                        v = it.ev(ini['init'])
+                    except (NeedAtom, Unsupported) as e:
+                        raise AnalysisBroken('Groups constructor flag initialiser not interpretable: %s' % (e,))
+                    good = good and bool(v & bit)
+                est += 1
+                chk.check(good, 'R4', f.name, 'the flag word for new handlers contains hfInGroup from the start', f.loc(),
+                          'the initialiser does not set the bit for every argument value')
+    chk.require(est >= 1, 'Groups constructor does not initialise mHandlerFlags')
+    # every later write keeps the bit
+    n_writes = 0
+    for f in fns:
+        if f.d.get('ctor') or f.body is None:
+            continue
+        for n in f.walk():
+            if n.get('k') in ('BinaryOperator', 'CompoundAssignOperator') and (n.get('op') or '').endswith('=') and \
+                    n.get('op') not in ('==', '!=', '<=', '>=') and field_name(children(n)[0]) == 'mHandlerFlags':
+                n_writes += 1
+                # bits mentioned by the statement and by the condition guarding it
+                consts = {bit}
+                for x in walk(n):
+                    if isinstance(x.get('cv'), int) and x['cv'] > 0:
+                        consts.add(x['cv'])
+                bits = sorted({1 << i for c in consts for i in range(c.bit_length()) if c >> i & 1})[:12]
+                bad = None
+                guard = None
+                cfg = f.cfg
+                for bid, cond in cfg.cond_blocks():
+                    if cond is not None and mentions_field(cond, 'mHandlerFlags') and \
+                            cfg.guarded_by_edge(cfg.position(n), bid, 0):
+                        guard = cond
+                for combo in itertools.product((0, 1), repeat=len(bits)):
+                    old = bit
+                    for b, on in zip(bits, combo):
+                        if on:
+                            old |= b
+                    env = {'this.mHandlerFlags': old}
+                    for p in f.params:
+                        env[p['name']] = 0
+                    try:
+                        if guard is not None and not Interp(f, dict(env), opaque_ok=False).ev(guard):
+                            continue
+                        it = Interp(f, dict(env), opaque_ok=False)
+                        it.stmt(n)
+                    except (NeedAtom, Unsupported) as e:
+                        raise AnalysisBroken('update of mHandlerFlags not interpretable: %s' % (e,))
+                    new = it.env.get('this.mHandlerFlags')
+                    if not (new & bit):
+                        bad = bad or (old, new)
+                chk.check(bad is None, 'R4', f.name, 'an update of the flag word for new handlers keeps hfInGroup (later '
+                          'handlers stay group members and cross-check their keys)', f.loc(n),
+                          '' if bad is None else 'flags 0x%x become 0x%x' % bad)
+    # the flag word is handed to every new handler
+    mk = 0
+    for f in fns:
+        if f.short != 'internGetArgHandler':
+            continue
+        for c in f.calls():
+            if 'make_shared' in (c.get('callee') or ''):
+                args = call_args(c)
+                ok = any(mentions_field(a, 'mHandlerFlags') and
+                         not any(x.get('k') == 'BinaryOperator' and x.get('op') in ('&', '^', '-') for x in walk(a))
+                         for a in args)
+                mk += 1
+                chk.check(ok, 'R4', f.name, 'a new member handler receives the complete flag word (or-ed with its own '
+                          'flags)', f.loc(c))
+    chk.require(n_writes >= 1 and mk >= 1, 'flag word writes %d, handler creations %d' % (n_writes, mk))
+
+
 def run(chk):
     prog, units = rules.prog_args_program()
     chk.units = units
@@ -210,3 +302,5 @@ def run(chk):
         if 'Groups' in o['function']:
             chk.check(o['status'] == 'held', 'R2', o['function'], o['what'], o['where'], o.get('detail', ''))
     r3(chk, prog)
+    chk.rule('R4', 'handlers created by Groups are marked as group members (hfInGroup is established and never cleared)', 3)
+    r4_membership_flag(chk, prog)
